@@ -1163,3 +1163,28 @@ func (p *Program) walkCallResult(c *ssa.Call, idx int, walk func(ssa.Value, int)
 		}
 	}
 }
+
+// interveningWriter: is there an instruction w satisfying isWriter that can execute after `from`
+// and before `to` on some path (from -> w without passing `to`, then w -> to)?
+func interveningWriter(fn *ssa.Function, from, to ssa.Instruction, isWriter func(ssa.Instruction) bool, edgeOK func(a, b *ssa.BasicBlock) bool) bool {
+	isTo := func(x ssa.Instruction) bool { return x == to }
+	for _, b := range fn.Blocks {
+		for _, w := range b.Instrs {
+			if w == from || w == to || !isWriter(w) {
+				continue
+			}
+			w := w
+			isW := func(x ssa.Instruction) bool { return x == w }
+			f1, _, _ := PathQuery{Start: from, Target: isW, Barrier: isTo, EdgeOK: edgeOK}.Find(fn)
+			if !f1 {
+				continue
+			}
+			// passing through `from` again re-establishes the value: not an intervening write
+			f2, _, _ := PathQuery{Start: w, Target: isTo, Barrier: func(x ssa.Instruction) bool { return x == from }, EdgeOK: edgeOK}.Find(fn)
+			if f2 {
+				return true
+			}
+		}
+	}
+	return false
+}
